@@ -294,6 +294,42 @@ pub fn extra_reader_scenarios(seed: u64) -> Vec<c09::Scn> {
     v
 }
 
+/// Light observation of a large archive: what `new` concluded about it (count, comment, first and last record) and the
+/// content of the last entry. Err(String) inside = an error was reported.
+#[derive(Clone, Debug, PartialEq)]
+pub struct Light {
+    pub len: usize,
+    pub comment: Vec<u8>,
+    pub first: (String, u64),
+    pub last: (String, u64, Vec<u8>),
+}
+fn run_light(bytes: &std::sync::Arc<Vec<u8>>, p: PlanRef) -> Result<Result<Light, String>, String> {
+    struct Shared(std::sync::Arc<Vec<u8>>);
+    impl AsRef<[u8]> for Shared {
+        fn as_ref(&self) -> &[u8] {
+            &self.0
+        }
+    }
+    let inst = Inst::over(std::io::Cursor::new(Shared(bytes.clone())), p);
+    crate::util::guard(|| -> Result<Light, String> {
+        use std::io::Read;
+        let mut ar = zip::ZipArchive::new(inst).map_err(|e| format!("open: {e}"))?;
+        let len = ar.len();
+        let comment = ar.comment().to_vec();
+        let first = {
+            let f = ar.by_index_raw(0).map_err(|e| format!("first: {e}"))?;
+            (f.name().to_string(), f.central_header_start())
+        };
+        let last = {
+            let mut f = ar.by_index(len - 1).map_err(|e| format!("last: {e}"))?;
+            let mut v = vec![];
+            f.read_to_end(&mut v).map_err(|e| format!("read: {e}"))?;
+            (f.name().to_string(), f.central_header_start(), v)
+        };
+        Ok(Light { len, comment, first, last })
+    })
+}
+
 fn robs_has_err(o: &RObs) -> bool {
     o.open.is_err() || o.entries.iter().any(|e| e.content.is_err())
 }
@@ -357,6 +393,29 @@ fn replay(case: &Value, st: &mut Stats, seed: u64) {
                 check_writer(s, &src, &(b.0, l), &devs, st, 0);
             }
         }
+    } else if let Some(label) = case["large"].as_str() {
+        let n: usize = label.split('-').next().and_then(|x| x.parse().ok()).unwrap_or(65_536);
+        let mut calls = vec![Call::SetComment(b"many".to_vec())];
+        for i in 0..n {
+            calls.push(Call::StartFile { name: format!("n{i}"), opts: FOpts::m(0) });
+            if i + 1 == n {
+                calls.push(Call::Write(b"the last entry".to_vec()));
+            }
+        }
+        calls.push(Call::Finish);
+        let bytes = std::sync::Arc::new(exec(&calls, &[]).1);
+        if let Ok(Ok(base)) = run_light(&bytes, plan()) {
+            let p = plan();
+            for (k, d) in &devs {
+                p.borrow_mut().devs.insert(*k, *d);
+            }
+            st.evals += 1;
+            match run_light(&bytes, p.clone()) {
+                Err(pn) => st.viol(format!("reader/panic/large/{}", panic_site(&pn)), pn, case.clone(), 0),
+                Ok(Ok(l)) if p.borrow().errors_returned > 0 && l != base => st.viol("reader/silent-wrong-result/large", format!("{} entries listed, failure-free {}", l.len, base.len), case.clone(), 0),
+                _ => {}
+            }
+        }
     } else if let Some(label) = case["reader"].as_str() {
         let mut scns = c09::scenarios(seed, 700);
         scns.extend(extra_reader_scenarios(seed));
@@ -390,7 +449,7 @@ pub fn run(args: &Args) -> i32 {
     rscn.extend(extra_reader_scenarios(seed));
     ctx.rule = format!(
         "E-DEV over faults. Writer: every sequence of 1..={} composites over a 12-composite alphabet (plain/compressed/large files, directory, symlink, extra data, aligned, ZipCrypto, raw copy) + finish + explicit drop, and append onto 5 bases (two files, empty, large-file extra data, prefixed foreign, nested archive as last entry) + each composite: {} scenarios. \
-         Reader: 10 archives (all methods, ZipCrypto, AE-1, AE-2, prefixed ZIP64, a stored nested archive as last entry, a 3000-byte comment, data descriptors) through the seekable reader, the plain ones also through the streaming loop and the visitor. For each scenario the failure-free run numbers its N I/O calls; a hard error is injected at EVERY call index, transient (that call only) and sticky (that call and all later ones); \
+         Reader: 10 archives (all methods, ZipCrypto, AE-1, AE-2, prefixed ZIP64, a stored nested archive as last entry, a 3000-byte comment, data descriptors) through the seekable reader, the plain ones also through the streaming loop and the visitor; two archives of 65 536 / 65 540 entries (ZIP64 only because of the count) with faults at each of the first 120 I/O calls of the open and every 9973rd later one, light observation (count, comment, first and last record, last content). For each scenario the failure-free run numbers its N I/O calls; a hard error is injected at EVERY call index, transient (that call only) and sticky (that call and all later ones); \
          all PAIRS of transient faults for scenarios with N <= {}. The script always runs to its end. Oracle: no call panics (incl. finish, Drop for ZipWriter, Drop for ZipFile); if no call reported an error, the result equals the failure-free run's. \
          distinct_nontrivial = distinct (scenario, fault set) executions in which the injected fault was actually reached (counted).",
         3,
@@ -506,6 +565,80 @@ pub fn run(args: &Args) -> i32 {
     });
     ctx.stats.merge(s);
     crate::diag!("  [C11] reader side done at {:.1}s ({} executions)", ctx.elapsed(), ritems.len());
+
+    // archives that are ZIP64 only because of their entry count (65 536 and 65 540 entries): the classic end record then
+    // holds real offsets next to a saturated count. Faults at each of the first 120 I/O calls of the open (end-record search,
+    // locator probe, ZIP64 record, first directory records) and at every 9973rd call after that; light observation.
+    {
+        let mut big: Vec<(String, std::sync::Arc<Vec<u8>>)> = vec![];
+        for n in [65_536usize, 65_540] {
+            let mut calls = vec![Call::SetComment(b"many".to_vec())];
+            for i in 0..n {
+                calls.push(Call::StartFile { name: format!("n{i}"), opts: FOpts::m(0) });
+                if i + 1 == n {
+                    calls.push(Call::Write(b"the last entry".to_vec()));
+                }
+            }
+            calls.push(Call::Finish);
+            big.push((format!("{n}-entries"), std::sync::Arc::new(exec(&calls, &[]).1)));
+        }
+        let mut litems: Vec<(usize, u64, Dev)> = vec![];
+        let mut lbase: Vec<Option<Light>> = vec![];
+        for (bi, (label, bytes)) in big.iter().enumerate() {
+            let p = plan();
+            p.borrow_mut().record_kinds = false;
+            match run_light(bytes, p.clone()) {
+                Ok(Ok(l)) => {
+                    let n = p.borrow().calls;
+                    for k in (0..n.min(120)).chain((120..n).step_by(9973)) {
+                        litems.push((bi, k, Dev::Err));
+                        litems.push((bi, k, Dev::ErrSticky));
+                    }
+                    lbase.push(Some(l));
+                }
+                other => {
+                    ctx.machinery(format!("large archive {label} has no clean failure-free run: {:?}", other.map(|r| r.map(|_| ()))));
+                    lbase.push(None);
+                }
+            }
+        }
+        ctx.bound("large_archive_fault_executions", json!(litems.len()));
+        let (big_r, lbase_r, litems_r) = (&big, &lbase, &litems);
+        let ldesc = |t: u64| -> Option<Value> {
+            let (bi, k, d) = litems_r.get(t as usize)?;
+            Some(json!({"large": big_r[*bi].0, "faults": [{"call": k, "kind": format!("{d:?}")}]}))
+        };
+        let s = crate::util::par_for_desc(litems.len() as u64, 1, &ldesc, |t, st| {
+            let (bi, k, d) = litems_r[t as usize];
+            let Some(base) = &lbase_r[bi] else { return };
+            st.evals += 1;
+            let p = plan();
+            p.borrow_mut().record_kinds = false;
+            p.borrow_mut().devs.insert(k, d);
+            let case = || json!({"large": big_r[bi].0, "faults": [{"call": k, "kind": format!("{d:?}")}]});
+            match run_light(&big_r[bi].1, p.clone()) {
+                Err(pn) => st.viol(format!("reader/panic/large/{}", panic_site(&pn)), format!("{}: with ({k}, {d:?}) the reader panicked: {pn}", big_r[bi].0), case(), (2 << 60) | t),
+                Ok(Err(_)) => st.class("error-reported"),
+                Ok(Ok(l)) => {
+                    if p.borrow().errors_returned == 0 {
+                        st.class("fault-not-reached");
+                    } else if l == *base {
+                        st.class("silent-but-identical");
+                    } else {
+                        st.class("SILENT-WRONG-RESULT");
+                        st.viol(
+                            "reader/silent-wrong-result/large",
+                            format!("{}: ({k}, {d:?}) injected, no call reported an error, but the archive now lists {} entries (failure-free: {}), first record at {}, last entry {:?}", big_r[bi].0, l.len, base.len, l.first.1, l.last.0),
+                            case(),
+                            (2 << 60) | t,
+                        );
+                    }
+                }
+            }
+        });
+        ctx.stats.merge(s);
+        crate::diag!("  [C11] large archives done at {:.1}s ({} executions)", ctx.elapsed(), litems.len());
+    }
 
     let reached = ctx.stats.evals - ctx.stats.classes.get("fault-not-reached").copied().unwrap_or(0);
     ctx.distinct_counted = reached;
